@@ -31,7 +31,8 @@ func newXMLWriter() *xmlWriter {
 }
 
 func (enc *xmlWriter) Clear() {
-	panicOnErr(enc.w.Close())
+	// The document is discarded: one left unfinished by an encoding that failed half-way is not an error here.
+	_ = enc.w.Close()
 	enc.buf.Reset()
 	enc.w = xml.NewEncoder(enc.buf)
 	enc.w.Indent("", "    ")
